@@ -236,6 +236,13 @@ func init() {
 		{rule: "CALLERS.PopCondition", target: "lisp.Runtime.PopCondition", method: true, floor: 1, permitted: map[string]string{
 			"lisp.opHandlerBind": "deferred pop"}},
 	}
+	callerSpecs = append(callerSpecs,
+		callerSpec{rule: "CALLERS.NewScannerString", target: "parser/token.NewScannerString", floor: 1, permitted: map[string]string{
+			"parser/rdparser.readsBackAsSymbol": "re-scans a fragment of one already-scanned token; the fragment is smaller than the window it came through"}},
+		callerSpec{rule: "CALLERS.newScannerBuf", target: "parser/token.newScannerBuf", floor: 2, permitted: map[string]string{
+			"parser/token.NewScanner":       "the fixed DefaultBufSize window every source reader uses",
+			"parser/token.NewScannerString": "window sized to an in-memory fragment (callers restricted by CALLERS.NewScannerString)"}},
+	)
 	for _, sp := range callerSpecs {
 		sp := sp
 		if sp.permitted == nil {
